@@ -47,8 +47,11 @@ class Runner:
         ap.add_argument("--saved", action="append", default=[])
         ap.add_argument("--only", action="append", default=[])
         ap.add_argument("--scale", type=float, default=1.0)
+        ap.add_argument("--shard", default="0/1", help="i/n: this process runs shard i of n (random groups: 1/n of the cases with a derived seed; sweeps: items[i::n]); required-label checks are then left to the merging driver")
         self.a = ap.parse_args()
         self.known = set(k for k in self.a.known.split(",") if k)
+        si, sn = self.a.shard.split("/")
+        self.shard_i, self.shard_n = int(si), max(1, int(sn))
 
     # -- executing one program ------------------------------------------------------------------
     def execute(self, group, program):
@@ -109,6 +112,8 @@ class Runner:
             if a.only and g.name not in a.only:
                 continue
             n = int((g.thorough_n if thorough else g.quick_n) * a.scale)
+            if self.shard_n > 1 and g.items is None:
+                n = max(1, n // self.shard_n)
             if n <= 0 and g.items is None:
                 continue
             ts = time.time()
@@ -117,7 +122,7 @@ class Runner:
             if g.items is not None:
                 # deterministic sweep: every item once; the first failure per key is reported, the sweep continues
                 seen_keys = set()
-                for program in g.items(a.tier, a.seed):
+                for program in g.items(a.tier, a.seed)[self.shard_i::self.shard_n]:
                     st["evals"] += 1
                     try:
                         info = self.execute(g, program) or {}
@@ -147,11 +152,11 @@ class Runner:
                 for key, (program, msg) in st.get("known_example", {}).items():
                     failures.append(dict(key=key, msg=msg, known=True, replay="", group=g.name))
                 had_fail = any((not f["known"]) and f["group"] == g.name for f in failures)
-                if not had_fail:
+                if not had_fail and self.shard_n == 1:
                     for rl in g.required_labels:
                         if st["labels"].get(rl, 0) == 0:
                             harness_errors.append("group %s never generated required class %r" % (g.name, rl))
-                subs.append(dict(name=g.name, planned=st["evals"], evaluations=st["evals"], nontrivial=st["nontrivial"], distinct_nontrivial=len(st["hashes"]),
+                subs.append(dict(name=g.name, required_labels=g.required_labels, had_fail=had_fail, planned=st["evals"], evaluations=st["evals"], nontrivial=st["nontrivial"], distinct_nontrivial=len(st["hashes"]),
                                  labels=st["labels"], excluded_known=st["excluded"], wall_s=round(time.time() - ts, 2), rule=g.rule, sweep=True))
                 total_evals += st["evals"]
                 total_distinct += len(st["hashes"])
@@ -188,7 +193,7 @@ class Runner:
                 for lab in info.get("labels", ()):
                     st["labels"][lab] = st["labels"].get(lab, 0) + 1
 
-            for program in g.fixed:
+            for program in (g.fixed if self.shard_i == 0 else []):
                 try:
                     body_impl(program, g, st)
                 except Violation as v:
@@ -199,7 +204,7 @@ class Runner:
                     failures.append(dict(key=v.key, msg=v.msg, known=False, replay=fn, group=g.name))
             test = settings(max_examples=n, database=None, deadline=None, derandomize=False, report_multiple_bugs=False,
                             suppress_health_check=list(HealthCheck), phases=(Phase.generate, Phase.shrink), print_blob=False)(
-                hseed(a.seed * 1000 + gi)(given(g.strategy)(make_body(g, st))))
+                hseed(a.seed * 1000 + gi + 7919 * self.shard_i)(given(g.strategy)(make_body(g, st))))
             try:
                 test()
             except Violation as v:
@@ -224,11 +229,11 @@ class Runner:
             for key, (program, msg) in st.get("known_example", {}).items():
                 failures.append(dict(key=key, msg=msg, known=True, replay="", group=g.name))
             had_fail = any((not f["known"]) and f["group"] == g.name for f in failures)
-            if not had_fail:
+            if not had_fail and self.shard_n == 1:
                 for rl in g.required_labels:
                     if st["labels"].get(rl, 0) == 0:
                         harness_errors.append("group %s never generated required class %r" % (g.name, rl))
-            subs.append(dict(name=g.name, planned=n, evaluations=st["evals"], nontrivial=st["nontrivial"], distinct_nontrivial=len(st["hashes"]),
+            subs.append(dict(name=g.name, required_labels=g.required_labels, had_fail=had_fail, planned=n, evaluations=st["evals"], nontrivial=st["nontrivial"], distinct_nontrivial=len(st["hashes"]),
                              labels=st["labels"], excluded_known=st["excluded"], wall_s=round(time.time() - ts, 2), rule=g.rule))
             total_evals += st["evals"]
             total_distinct += len(st["hashes"])
